@@ -1541,7 +1541,9 @@ func (c *connection) serve(conn net.Conn, tail []byte) int {
 		queue := c.recvQueues[qN]
 		atomic.AddInt64(&c.allocatedInQueues, int64(buf.Cap()))
 
+		lib.VerifPoint("recvq.push", uint64(qN))
 		queue.Push(buf)
+		lib.VerifPoint("recvq.lock", uint64(qN))
 		if queue.Lock() {
 			go c.handleRecvQueue(queue)
 		}
@@ -1569,14 +1571,17 @@ func (c *connection) handleRecvQueue(q lib.QueueMPSC) {
 		v, ok := q.Pop()
 		if ok == false {
 			// no more items in the queue, unlock it
+			lib.VerifPoint("recvq.unlock", 0)
 			q.Unlock()
 
 			// but check the queue before the exit this goroutine
+			lib.VerifPoint("recvq.recheck", 0)
 			if i := q.Item(); i == nil {
 				return
 			}
 
 			// there is something in the queue, try to lock it back
+			lib.VerifPoint("recvq.relock", 0)
 			if locked := q.Lock(); locked == false {
 				// another goroutine is started
 				return
